@@ -107,7 +107,11 @@ def bundle_type(draw, F, rings=(2, 6), ducts=(1, 2), bare=False, safe_corr=True,
          "duct_ftf": ftf, "duct_material": "ss316"}
     a.update(draw(correlations(safe_corr)))
     if Dw == 0.0:
-        a["corr_mixing"] = draw(st.sampled_from(["CTD", "KC-BARE"])) if not safe_corr else "CTD"
+        # bare rods: only the Cheng-Todreas family declares itself applicable (others are rejected at set-up)
+        fam = draw(st.sampled_from(["CTD", "UCTD"]))
+        a["corr_friction"] = fam
+        a["corr_flowsplit"] = fam
+        a["corr_mixing"] = draw(st.sampled_from([fam, "KC-BARE"]))
     if n_duct > 1:
         a["bypass_gap_flow_fraction"] = draw(st.sampled_from([0.0]) | fl(0.01, 0.3))
     if htc and draw(st.booleans()):
